@@ -25,6 +25,11 @@ def read_lat(filename):
         return [int(line.split()[0]) for line in f if line.strip()]
 
 
+def extra_orders(x, n_order):
+    """progress coordinate + (n_order - 1) further collective variables, exact at six decimals"""
+    return [float(x)] + [float((x * (k + 2)) % 5) + 0.25 * k for k in range(n_order - 1)]
+
+
 class IntOrder(OrderParameter):
     def __init__(self):
         super().__init__(description="lattice position", velocity=False)
@@ -36,7 +41,7 @@ class IntOrder(OrderParameter):
 class LatticeEngine(EngineBase):
     """+-1 walk.  `wall`: reflecting wall position (x never goes below it)."""
 
-    def __init__(self, wall=-4, timestep=1.0, subcycles=1, temperature=1.0, input_path=".", sleep=0.0):
+    def __init__(self, wall=-4, timestep=1.0, subcycles=1, temperature=1.0, input_path=".", sleep=0.0, n_order=1):
         super().__init__("lattice walk", timestep, subcycles)
         self.ext = "lat"
         self.wall = int(wall)
@@ -45,6 +50,10 @@ class LatticeEngine(EngineBase):
         self.input_path = input_path
         self.name = "lattice"
         self.sleep = sleep
+        self.n_order = int(n_order)     # number of order-parameter values per frame (progress coordinate + extra columns)
+
+    def order_of(self, x):
+        return extra_orders(x, self.n_order)
 
     # the plug-in loader requires a callable attribute `step`
     def step(self, x):
@@ -97,7 +106,7 @@ class LatticeEngine(EngineBase):
             while True:
                 out.write(f"{x}\n")
                 out.flush()
-                snapshot = {"order": [float(x)], "config": (traj_file, k), "vel_rev": reverse,
+                snapshot = {"order": self.order_of(x), "config": (traj_file, k), "vel_rev": reverse,
                             "vpot": 0.0, "ekin": 0.0}
                 phase_point = self.snapshot_to_system(system, snapshot)
                 status, success, stop, _ = self.add_to_path(path, phase_point, left, right)
